@@ -494,12 +494,45 @@ def apalache_units(tier):
     return apa.run_all(tier)
 
 
+def check_c15(tier, t0):
+    from . import witness
+    r = witness.run(tier)
+    for te in r['tool_errors']:
+        log('TOOL-ERROR: ' + te[:1500])
+    vdir = core.ensure(os.path.join(OUT, 'violations', 'C15'))
+    for k, (label, why, cdir, fn) in enumerate(r['violations']):
+        path = os.path.join(vdir, 'witness_%d.json' % k)
+        json.dump({'property': 'C15', 'witness': label, 'why': why, 'crate': cdir, 'function': fn,
+                   'replay_cmd': 'cd %s && cargo check --offline' % cdir}, open(path, 'w'), indent=1)
+        if k < 12:
+            log('VIOLATION property=C15 replay=%s  (%s: %s)' % (path, why, label[:160]))
+    cov = {'explanation': ('spec/Borrow.tla enumerates every well-formed client program (<= %d statements, one buffer, two views) and classifies it with '
+                           'the borrow contract (TLC also checks the aliasing-XOR-mutation theorem on all of them); each legal program and each program with exactly '
+                           'one conflict is instantiated with the concrete methods of the crate and compiled: accept witnesses must compile, reject witnesses must each '
+                           'be rejected by the borrow checker; the static rows (variance, const, auto traits) get one accept / reject witness each. rustc is the oracle.') % (4 if tier == 'quick' else 5),
+           'evaluations': r['accept_functions'] + r['reject_functions'], 'distinct_nontrivial': r['programs'] + r['static_rows'],
+           'rule': 'distinct = distinct mode-level programs enumerated by TLC plus rows of the static contract table; each is instantiated with rotating concrete methods',
+           'states': r['states'], 'transitions': r['transitions'], 'accept_witnesses': r['accept_functions'], 'reject_witnesses': r['reject_functions'],
+           'methods_covered': r['methods_covered'], 'samples': r['samples'], 'exhaustive': True}
+    core.write_evidence('C15', {'property_id': 'C15', 'tier': tier, 'seed': seed(), 'level': 'other', 'coverage': cov,
+                                'assumptions': ['rustc (the installed stable toolchain) is the oracle for accept / reject',
+                                                'the client-program model is bounded: one buffer, two views, %d statements' % (4 if tier == 'quick' else 5),
+                                                'static facts (variance, const, auto traits) have no transition content: the specification contributes the table and its enumeration, not a proof'],
+                                'wall_s': round(time.time() - t0, 2), 'violations': len(r['violations'])})
+    log('C15 [%s]: %d programs from TLC, %d accept witnesses, %d reject witnesses, %d violations, %.1fs'
+        % (tier, r['programs'], r['accept_functions'], r['reject_functions'], len(r['violations']), time.time() - t0))
+    if r['violations']:
+        return 1
+    return 2 if r['tool_errors'] else 0
+
+
 CHECKS = {}
 for _p in RING_WANT:
     CHECKS[_p] = (lambda p: (lambda tier, t0: check_ring(p, tier, t0)))(_p)
 CHECKS['C04'] = check_c04
 CHECKS['C13'] = check_c13
 CHECKS['C14'] = check_c14
+CHECKS['C15'] = check_c15
 CHECKS['C19'] = check_c19
 CHECKS['C18'] = check_c18
 CHECKS['C16'] = check_c16
